@@ -37,14 +37,15 @@ def StatsEntry.accKind : StatsEntry → AccKind
   | .counter _ => .counter
   | .agg k _ _ => k.acc
 
-/-- `DataRow.GetFloat` in milli units; `none` where the Go getter panics (non-numeric local column) -/
+/-- `DataRow.GetFloat` in milli units; `none` where a Go getter panics.  A value which is not a number goes
+    through `interface2float64`: a string counts as the number it spells (else 0), every other value as 0 -/
 def getFloat (v : View) (c : Column) : Option Int :=
   match v.get c with
   | .f m => some m
   | .i x => some (x * 1000)
-  | .s s => if c.storage == .loc then none else some ((parseMilli? s).getD 0)
+  | .s s => some ((parseMilli? s).getD 0)
   | .crash _ => none
-  | _ => if c.storage == .loc then none else some 0
+  | _ => some 0
 
 /-! ## the grouped form the optimiser builds -/
 
